@@ -345,6 +345,9 @@ def diagnose_missing_key(
         got: List of keys that were given by the user
         expected_type: A user-defined class we expected to get
     """
+    # keys that are not strings (e.g. sequences) cannot be what was meant
+    got = [g for g in got if isinstance(g, str)]
+
     a = '"{}"'.format(name)
     if '_' in name:
         a += ' or maybe "{}"'.format(
